@@ -916,7 +916,11 @@ func runConnMgr(c *hx.Ctx) {
 
 	// 2. boundary corpus: busy with drop_inactive off, reload turning it on (and changing the timeout), quiet checks
 	// around the timeout - every variant of cmReloadScript
-	for v := 0; v < 48; v++ {
+	nCorpus := 24 // all timeout combinations, first quiet check at 5s / 40s; thorough adds the off/on flip variants
+	if c.Tier == "thorough" {
+		nCorpus = 48
+	}
+	for v := 0; v < nCorpus; v++ {
 		T, ds := cmReloadScript(c, v)
 		lit, kind, nontrivial, desc := cmHistory(c, m, 0, ds, T, "history-reload-corpus")
 		cw.Add(lit, kind, nontrivial, desc)
@@ -933,7 +937,7 @@ func runConnMgr(c *hx.Ctx) {
 		lit, kind, nontrivial, desc := cmHistory(c, m, 30+c.Intn(30), nil, 0, "history")
 		cw.Add(lit, kind, nontrivial, desc)
 	}
-	cw.Close("every abstract row of the three tables on a fresh concrete situation, 48 scripted histories (busy with drop_inactive off, reload turning it on / changing the timeout, quiet checks at idle < timeout, timeout-1ns, = timeout), then random histories of 30-59 periodic checks over 6 tunnels to 3 peers " +
+	cw.Close("every abstract row of the three tables on a fresh concrete situation, 24 (thorough: 48) scripted histories (busy with drop_inactive off, reload turning it on / changing the timeout, quiet checks at idle < timeout, timeout-1ns, = timeout), then random histories of 30-59 periodic checks over 6 tunnels to 3 peers " +
 		"(traffic flags, clock advances up to the inactivity timeout, certificate expiry/blocklisting/authority removal, pki and config reloads, counter jumps); each check carries the harness's own idle time since it last injected traffic; " +
 		"non-trivial = history in which a tunnel is removed and another decision kind occurs; distinct by literal")
 }
